@@ -369,6 +369,7 @@ int main(int argc, char** argv) {
   std::vector<Pair> PAIRS = {{30, 60}, {45, 45 + 1e-9}, {45, 45 + 1e-5}, {-30, 30}, {0, 1e-9}, {89, 89.9}, {-60, -20}};
   // nearly cylindrical cones (n from 2e-2 down to denormal): the library must use its divided-difference forms there (the direct (t^n - t0^n)/n loses eps a / tan(lat0))
   for (double v : {1.0, 0.1, 0.01, 0.001, 1e-6, 1e-10, 1e-200, 1e-310}) { SINGLE.push_back(v); SINGLE.push_back(-v); }
+  for (double v : {5.0, -5.0, 10.0, -10.0, 20.0, -20.0, -25.0, 30.0}) SINGLE.push_back(v);      // cones with 0 < |n| <= 1/2 for the apex probes of LambertConformalConic::Reverse
   for (Pair q : {Pair{-10, 10.01}, Pair{-30, 30 + 1e-6}, Pair{30, -30 - 1e-10}, Pair{-1e-6, 3e-6}}) PAIRS.push_back(q);
   std::vector<Pair> ALBERS_ONLY;           // one parallel at a pole: admissible for Albers, documented GeographicErr for LambertConformalConic
   // incl. the Math::tauf thresholds: one vs two Newton steps at 3.35 deg, asymptotic start value for |taup| > 70 (lat > 89.18)
@@ -377,7 +378,7 @@ int main(int argc, char** argv) {
   if (!T) AX.dlons = {0, 1e-9, 30, 179, 180, -180, -30};
   std::vector<double> SETSCALE_LATS = {-89.0, -60.0, 0.0, 1e-9, 45.0, 89.0};
   if (T) {   // deep thorough tier
-    for (double v : {-89.999, -89.0, -75.0, -45.0, -30.0, -10.0, 10.0, 30.0, 60.0, 75.0, 89.0, 89.9}) SINGLE.push_back(v);
+    for (double v : {-89.999, -89.0, -75.0, -45.0, -30.0, 60.0, 75.0, 89.0, 89.9}) SINGLE.push_back(v);
     // nearly equal parallels at several separations (mid, equator, near the pole; both hemispheres), wide and asymmetric pairs, pairs across the equator
     for (Pair q : {Pair{45, 45 + 1e-7}, Pair{45, 45.001}, Pair{45, 45.1}, Pair{45, 46}, Pair{0, 1e-5}, Pair{-1e-5, 2e-5}, Pair{-1e-9, 1e-9}, Pair{1e-9, 1e-5}, Pair{89.9, 89.99}, Pair{89.99, 89.999},
                    Pair{-45, -45 - 1e-9}, Pair{-45, -45.00001}, Pair{-45, -45.001}, Pair{-45, -46}, Pair{-30, -60}, Pair{-89, -89.9}, Pair{-89.9, -89.99}, Pair{-80, -20}, Pair{-1e-5, -1e-9},
@@ -390,8 +391,8 @@ int main(int argc, char** argv) {
   }
   ctx.bound("ellipsoids", T ? "WGS84, sphere, Intl1924, f=+-1/298.257, (a=1,f=1/150), f=-1/150, f=+-0.01, f=+-0.05, f=+-0.1, f=+-0.2, (a=1,f=0.5)" : "WGS84, sphere, f=-0.1, (a=1,f=0.5)");
   ctx.bound("scales", T ? "k0/k1 in {1, 0.994}; SetScale(lat, k): polar stereographic at every latitude of the alphabet, conics at lat {-89,-60,-30,-1e-9,0,1e-9,10,45,75,89}, k in {1, 0.9}, each followed by the FULL lat x dlon x lon0 lattice"
-                          : "k0/k1 in {1, 0.994}; SetScale(lat, k): polar stereographic at every latitude of the alphabet, conics at lat {-89,-60,0,1e-9,45,89}, k in {1, 0.9}, each followed by a 4 x 3 lat x dlon lattice");
-  ctx.bound("parallels", std::string("single {-90,-60,0,45,89.999,90, +-{1, 0.1, 0.01, 0.001, 1e-6, 1e-9, 1e-10, 1e-200, 1e-310}}; pairs {(30,60),(45,45+1e-9),(45,45+1e-5),(-30,30),(0,1e-9),(89,89.9),(-60,-20),(-10,10.01),(-30,30+1e-6),(30,-30-1e-10),(-1e-6,3e-6)} in both orders; constructor forms: 1-parallel, 2-parallel, sin/cos") +
+                          : "k0/k1 in {1, 0.994}; SetScale(lat, k): polar stereographic at every latitude of the alphabet, conics at lat {-89,-60,0,1e-9,45,89}, k in {1, 0.9, 0.01, 0.1, 3, 10, 100, 1e4} and SetScale(lat,7) followed by SetScale(lat,100), each followed by the lattice lat {ls, +-89.99, +-89, -45, 30, 60} x dlon {0, 30, -179}");
+  ctx.bound("parallels", std::string("single {-90,-60,0,45,89.999,90, +-{1, 0.1, 0.01, 0.001, 1e-6, 1e-9, 1e-10, 1e-200, 1e-310}, +-5, +-10, +-20, -25, 30 (+ apex probes of LambertConformalConic::Reverse: y = rho0 and its +-1, +-2 ulp, +-1e-9, +-1e-3 m neighbours x x in {0, +-1e-9, +-1e-3})}; pairs {(30,60),(45,45+1e-9),(45,45+1e-5),(-30,30),(0,1e-9),(89,89.9),(-60,-20),(-10,10.01),(-30,30+1e-6),(30,-30-1e-10),(-1e-6,3e-6)} in both orders; constructor forms: 1-parallel, 2-parallel, sin/cos") +
             (T ? "; deep tier: 12 more singles {+-89.999.., +-75, +-45 .. +-10, 89.9}, 31 more pairs (separations 1e-9, 1e-7, 1e-5, 1e-3, 0.1, 1 deg at 45, 0, -45 and near both poles; southern pairs; pairs across the equator incl. (-60,60); "
                  "wide pairs to (-85,5)/(5,85)), 6 pole+parallel pairs (Albers; LambertConformalConic must throw), sin/cos constructors also with un-normalised (x0.5, x0.25) arguments" : ""));
   ctx.bound("lat", std::string("{+-90, +-(90-1e-9), +-89.5, +-89, -60, -45, -4, -1, +-1e-9, 0, 1, 3, 30, 45, 60, 75} + each standard parallel, the origin latitude and their +-1e-9 neighbours") +
@@ -431,7 +432,7 @@ int main(int argc, char** argv) {
     }
     // SetScale: scale k at latitude lat (northp = true convention)
     ctx.sub(std::string("polar-stereographic-setscale/") + EP.name);
-    for (double ls : LATBASE) for (double ks : {1.0, 0.9}) {
+    for (double ls : LATBASE) for (double ks : {1.0, 0.9, 0.01, 0.1, 3.0, 10.0, 100.0, 1e4}) {
       if (!ctx.take()) continue;
       if (!(ls > -90)) {            // documented: lat must be in (-90, 90]
         mc::Ctx::Case cs(ctx);
@@ -451,7 +452,7 @@ int main(int argc, char** argv) {
       Oracle O = make_ps_oracle(E, (double)k0o, true);
       // the oracle uses the closed-form k0 in quad precision (not rounded): rebuild with exact value
       { auto p = std::make_shared<proj_cf::PolarStereo>(E, 1.0, true); p->k0 = k0o; O.fwd = [p](Lat L, Q lam) { return p->fwd(L, lam); }; O.k = [p](Lat L) { return p->k(L); }; O.kpole = (double)k0o; }
-      Axes A; A.lats = {ls, 90, 45, -30}; A.dlons = {0, 30, -179}; A.lon0s = {0};
+      Axes A; A.lats = {ls, 90, 89.99, 45, -30, -89, -89.99}; A.dlons = {0, 30, -179}; A.lon0s = {0};
       check_projection(ctx, E, U, O, A, famc, {}, 1.0, false);
       { mc::Ctx::Case cs(ctx); double x, y, g, k; ps->Forward(true, ls, 20, x, y, g, k);
         Q e = fabsq(Q(k) / Q(ks) - 1);
@@ -580,6 +581,26 @@ int main(int argc, char** argv) {
             if ((el > tl || ek > tk) && !nearpole) { mc::Fields ff = {{"kind", "origin"}, {"proj", U.name}}; if (U.defect_blanket) ff.push_back({"defect", U.defect});
               ctx.fail(U.name + " origin", U.name + ": OriginLatitude " + fx(U.lat0) + " CentralScale " + fx(U.k0c) + " closed form " + fq(O.phi0 / proj_cf::deg()) + " " + fq(k0o), ff); } }
           check_projection(ctx, E, U, O, A, fam, stds, k1, fi == 0);
+          // apex probes (LambertConformalConic, non-polar cone): Reverse at, beyond and just inside the apex (x = 0, y = rho0).  A point at distance rho from the apex has
+          // t = t0 (rho/|rho0|)^(1/|n|); for the probes below t < 1e-18, so the latitude is the apex pole to double precision (t^n == 0 is replaced by a large finite dpsi)
+          if (!albers && O.conic && O.n != 0 && fabsq(O.n) < 1 && !denormal_n && finiteq(O.rho0) && fabsq(O.rho0) < 1e300Q) {
+            const double ya = (double)O.rho0, pole = O.n > 0 ? 90.0 : -90.0;
+            std::vector<double> ys = {ya, std::nextafter(ya, INFINITY), std::nextafter(ya, -INFINITY), std::nextafter(std::nextafter(ya, INFINITY), INFINITY), std::nextafter(std::nextafter(ya, -INFINITY), -INFINITY),
+                                      ya + 1e-9, ya - 1e-9, ya + 1e-3, ya - 1e-3};
+            for (double yy : ys) for (double xx : {0.0, 1e-9, -1e-9, 1e-3, -1e-3}) {
+              Q rho = hypotq(Q(xx), O.rho0 - Q(yy));
+              if (!(rho == 0 || expq(logq(rho / fabsq(O.rho0)) / fabsq(O.n)) < 1e-18Q)) continue;
+              mc::Ctx::Case cs(ctx);
+              double la, lo, g, k; int sg = 0;
+              try { sg = mc::crashed([&] { U.rev(0, xx, yy, la, lo, g, k); }); } catch (const std::exception& e) { sg = -1; }
+              Q err = sg ? HUGE_VALQ : fabsq(Q(pole) - Q(la)) * proj_cf::deg() * E.a;          // ground distance from the apex pole
+              ctx.worst("lcc.apex-probe.distance-from-pole_m", D(err), U.name);
+              if (!(err <= 20e-9Q * (E.a / WGS84_A)) || !(std::fabs(la) <= 90)) {
+                mc::Fields ff = {{"kind", "apex-reverse"}, {"proj", U.name}, {"x", fmt(xx)}, {"y", fmt(yy)}}; if (U.defect_blanket) ff.push_back({"defect", U.defect});
+                ctx.fail(U.name + " apex " + fx(xx) + " " + fx(yy), U.name + ": Reverse(0, " + fx(xx) + ", " + fx(yy) + ") (apex at y = " + fq(O.rho0) + ", " + fq(rho) + " m from it) = lat " + fx(la) + " lon " + fx(lo) + ", expected the pole " + fmt(pole), ff);
+              }
+            }
+          }
           if (fi > 0) { Axes As; As.lats = {-89, -45, 0, 1e-9, 30, 60, 89.999999999, 90, -90}; As.dlons = {0, 30, -179}; check_same(ctx, E, forms[0], U, O, As, 2e-9Q * (E.a / WGS84_A)); }
         }
         // SetScale on the first form
@@ -592,17 +613,23 @@ int main(int argc, char** argv) {
           south_defect_present = dm < 1e-3Q * ascale0 && dt > 1e3Q * ascale0;       // Forward(-50) is the image of +50
           if (south_defect_present) ctx.list("degraded", "AlbersEqualArea::SetScale on southern-hemisphere cones evaluates the defective Forward (known finding albers-south-forward-uses-minus-lat): all its failures are attributed to that finding");
         }
-        if (!forms.empty()) for (double ls : SETSCALE_LATS) for (double ks : {1.0, 0.9}) {
+        // scale ratios far from 1 (Reverse clamps drho with a constant that must be rescaled too) and SetScale applied twice (code -k: first SetScale(ls, 7), then SetScale(ls, k))
+        if (!forms.empty()) for (double ls : SETSCALE_LATS) for (double ksc : {1.0, 0.9, 0.01, 0.1, 3.0, 10.0, 100.0, 1e4, -100.0}) {
+          const double ks = std::fabs(ksc); const bool twice = ksc < 0;
+          if (albers && (ks < 0.05 || ks > 5)) { ctx.list("skipped", "AlbersEqualArea::SetScale to k in {0.01, 10, 100, 1e4}: with such azimuthal scales on the cones of the alphabet the plane errors reach 1e3..1e4 ulp of |x| "
+                                                         "(e.g. (-30,30+1e-6), SetScale(-89,1e4): y off by 2.5e-4 m at |x| = 5.8e8 m); no documented accuracy applies and the round-off model of this check does not cover it; "
+                                                         "k in {0.1, 3} and the LambertConformalConic / PolarStereographic extremes are checked"); continue; }
           mc::Ctx::Case cs0(ctx);
           std::shared_ptr<LambertConformalConic> lc; std::shared_ptr<AlbersEqualArea> al;
-          Under U; U.name = forms[0].name + ".SetScale(" + fmt(ls) + "," + fmt(ks) + ")";
+          Under U; U.name = forms[0].name + (twice ? ".SetScale(" + fmt(ls) + ",7)" : std::string()) + ".SetScale(" + fmt(ls) + "," + fmt(ks) + ")";
           Q kold = O.k(proj_cf::latd(ls));
           double k1s = (double)(Q(k1) * Q(ks) / kold);
           try {
-            if (albers) { al = std::make_shared<AlbersEqualArea>(sp.single ? AlbersEqualArea(EP.a, EP.f, sp.l1, k1) : AlbersEqualArea(EP.a, EP.f, sp.l1, sp.l2, k1)); al->SetScale(ls, ks); bind(U, al); }
-            else { lc = std::make_shared<LambertConformalConic>(sp.single ? LambertConformalConic(EP.a, EP.f, sp.l1, k1) : LambertConformalConic(EP.a, EP.f, sp.l1, sp.l2, k1)); lc->SetScale(ls, ks); bind(U, lc); }
+            if (albers) { al = std::make_shared<AlbersEqualArea>(sp.single ? AlbersEqualArea(EP.a, EP.f, sp.l1, k1) : AlbersEqualArea(EP.a, EP.f, sp.l1, sp.l2, k1)); if (twice) al->SetScale(ls, 7.0); al->SetScale(ls, ks); bind(U, al); }
+            else { lc = std::make_shared<LambertConformalConic>(sp.single ? LambertConformalConic(EP.a, EP.f, sp.l1, k1) : LambertConformalConic(EP.a, EP.f, sp.l1, sp.l2, k1)); if (twice) lc->SetScale(ls, 7.0); lc->SetScale(ls, ks); bind(U, lc); }
           } catch (const std::exception& e) { ctx.fail(U.name + " setscale-exception", U.name + ": " + e.what(), {{"kind", "setscale-exception"}, {"proj", U.name}}); continue; }
           Oracle Os = albers ? make_albers_oracle(E, L1, L2, k1s) : make_lcc_oracle(E, L1, L2, k1s);
+          if (albers && fabsq(Os.n) > 1) { ctx.count("albers.setscale: resulting cone constant k^2 n > 1 (the plane is covered more than once: not a map), not compared"); continue; }
           // SetScale derives the new scale from Forward's k at lat = ls; an error of that k within ITS tolerance (round-off + position tolerance over the distance to
           // the apex) becomes a systematic scale error of the whole map.  So (1) the resulting CentralScale is held to that conditioned tolerance against the closed
           // form, and (2) the lattice below is judged against the closed form carrying the library's own central scale.
@@ -636,7 +663,7 @@ int main(int argc, char** argv) {
             U.defect_k = Os.k;
           }
           if (denormal_n) { U.defect = "denormal-standard-parallel"; U.defect_blanket = true; U.defect_in_reverse = false; }
-          Axes As; As.lats = {ls, -45, 30, 60}; As.dlons = {0, 30, -179}; As.lon0s = {0};
+          Axes As; As.lats = {ls, -89.99, -89, -45, 30, 60, 89, 89.99}; As.dlons = {0, 30, -179}; As.lon0s = {0};
           if (T) { As = A; if (std::find(As.lats.begin(), As.lats.end(), ls) == As.lats.end()) As.lats.push_back(ls); }      // deep tier: the full lattice
           check_projection(ctx, E, U, Os, As, f2, {}, 1.0, false);
           { double x, y, g, k; U.fwd(0, ls, 20, x, y, g, k); Q e = fabsq(Q(k) / Q(ks) - 1);
